@@ -99,6 +99,14 @@ func c05Contract(ref string) string {
 	P, encdec, init := "Int", `
   access(all) view fun enc(_ k: Int): Int { return k }
   access(all) view fun dec(_ e: Int): Int { return e }`, ""
+	if ref == "big" {
+		// an arbitrary-precision Int too large to be stored inline: xs: [Int] holds slab references
+		encdec = `
+  access(all) let big: Int
+  access(all) view fun enc(_ k: Int): Int { return self.big + k }
+  access(all) view fun dec(_ e: Int): Int { return e - self.big }`
+		init = "self.big = 1 << 8000"
+	}
 	if ref == "str" {
 		P = "String"
 		encdec = `
